@@ -642,15 +642,15 @@ Section NodeInd.
 End NodeInd.
 
 Lemma pw_node_I f fl ru ks :
-  pw_node f (I fl ru ks) = (I fl ru (fst (pw_kids fl f ks)), snd (pw_kids fl f ks) && negb ru).
+  pw_node f (I fl ru ks) = (I fl ru (fst (pw_kids f ks)), snd (pw_kids f ks) && negb ru).
 Proof.
   simpl.
   match goal with |- context [?F f ks] =>
-    assert (H : forall f, F f ks = pw_kids fl f ks) end.
+    assert (H : forall f, F f ks = pw_kids f ks) end.
   { clear f. induction ks as [|k r IH]; intros f; simpl; [reflexivity|].
     destruct k; try (match goal with |- context [pw_node f ?x] => destruct (pw_node f x) as [k' fc] end);
       rewrite IH; reflexivity. }
-  rewrite H. destruct (pw_kids fl f ks). reflexivity.
+  rewrite H. destruct (pw_kids f ks). reflexivity.
 Qed.
 
 Lemma flat_I fl ru ks : flat (I fl ru ks) = flats ks.
@@ -667,21 +667,21 @@ Qed.
 
 Definition is_O (n : node) : bool := match n with O _ => true | _ => false end.
 
-Lemma pw_kids_consN pf f k r :
+Lemma pw_kids_consN f k r :
   is_O k = false ->
-  pw_kids pf f (k :: r) =
-  (fst (pw_node f k) :: fst (pw_kids pf (if pf && node_flow k then snd (pw_node f k) else f) r),
-   snd (pw_kids pf (if pf && node_flow k then snd (pw_node f k) else f) r)).
+  pw_kids f (k :: r) =
+  (fst (pw_node f k) :: fst (pw_kids (if node_flow k then snd (pw_node f k) else f) r),
+   snd (pw_kids (if node_flow k then snd (pw_node f k) else f) r)).
 Proof.
   intros H. simpl. destruct k; [| |discriminate].
-  - destruct (pw_node f (T w lead s)) as [k' c]. simpl. destruct (pw_kids pf _ r). reflexivity.
-  - destruct (pw_node f (I flow run kids)) as [k' c]. simpl. destruct (pw_kids pf _ r). reflexivity.
+  - destruct (pw_node f (T w lead s)) as [k' c]. simpl. destruct (pw_kids _ r). reflexivity.
+  - destruct (pw_node f (I flow run kids)) as [k' c]. simpl. destruct (pw_kids _ r). reflexivity.
 Qed.
 
-Lemma pw_kids_consO pf f fl r :
-  pw_kids pf f (O fl :: r) =
-  (O fl :: fst (pw_kids pf (if fl then false else f) r), snd (pw_kids pf (if fl then false else f) r)).
-Proof. simpl. destruct (pw_kids pf _ r). reflexivity. Qed.
+Lemma pw_kids_consO f fl r :
+  pw_kids f (O fl :: r) =
+  (O fl :: fst (pw_kids (if fl then false else f) r), snd (pw_kids (if fl then false else f) r)).
+Proof. simpl. destruct (pw_kids _ r). reflexivity. Qed.
 
 Lemma pw_node_isO f n : is_O (fst (pw_node f n)) = is_O n.
 Proof.
@@ -699,13 +699,13 @@ Definition absorb_node (n : node) : Prop :=
   snd (pw_node f (fst (pw_node f0 n))) = snd (pw_node f n) /\
   leb (snd (pw_node f0 n)) (snd (pw_node f n)).
 
-Definition absorb_kids (pf : bool) (ks : list node) : Prop :=
+Definition absorb_kids (ks : list node) : Prop :=
   forall f0 f, leb f0 f ->
-  fst (pw_kids pf f (fst (pw_kids pf f0 ks))) = fst (pw_kids pf f ks) /\
-  snd (pw_kids pf f (fst (pw_kids pf f0 ks))) = snd (pw_kids pf f ks) /\
-  leb (snd (pw_kids pf f0 ks)) (snd (pw_kids pf f ks)).
+  fst (pw_kids f (fst (pw_kids f0 ks))) = fst (pw_kids f ks) /\
+  snd (pw_kids f (fst (pw_kids f0 ks))) = snd (pw_kids f ks) /\
+  leb (snd (pw_kids f0 ks)) (snd (pw_kids f ks)).
 
-Lemma absorb_kids_of pf ks : Forall absorb_node ks -> absorb_kids pf ks.
+Lemma absorb_kids_of ks : Forall absorb_node ks -> absorb_kids ks.
 Proof.
   induction 1 as [|k r Hk Hr IH]; intros f0 f Hle.
   - simpl. auto.
@@ -715,12 +715,12 @@ Proof.
         by (destruct flow; [intro; assumption|assumption]).
       destruct (IH _ _ HF13) as [A' [B' C']]. rewrite A', B'. auto.
     + destruct (Hk f0 f Hle) as [A [B C]].
-      rewrite (pw_kids_consN pf f0 k r EO), (pw_kids_consN pf f k r EO). cbn [fst snd].
-      rewrite (pw_kids_consN pf f (fst (pw_node f0 k))) by (rewrite pw_node_isO; exact EO). cbn [fst snd].
+      rewrite (pw_kids_consN f0 k r EO), (pw_kids_consN f k r EO). cbn [fst snd].
+      rewrite (pw_kids_consN f (fst (pw_node f0 k))) by (rewrite pw_node_isO; exact EO). cbn [fst snd].
       rewrite pw_node_flow, A, B.
-      set (F1 := if pf && node_flow k then snd (pw_node f0 k) else f0).
-      set (F3 := if pf && node_flow k then snd (pw_node f k) else f).
-      assert (HF13 : leb F1 F3) by (unfold F1, F3; destruct (pf && node_flow k); assumption).
+      set (F1 := if node_flow k then snd (pw_node f0 k) else f0).
+      set (F3 := if node_flow k then snd (pw_node f k) else f).
+      assert (HF13 : leb F1 F3) by (unfold F1, F3; destruct (node_flow k); assumption).
       destruct (IH F1 F3 HF13) as [A' [B' C']]. rewrite A', B'. auto.
 Qed.
 
@@ -733,7 +733,7 @@ Proof.
     destruct (pw_text w f t1) as [[t2 g2] l2]. destruct (pw_text w f s) as [[t3 g3] l3]. cbn [fst snd].
     destruct H as [-> [-> [H3 H4]]]. rewrite <- orb_assoc, H4. auto.
   - rewrite !pw_node_I. cbn [fst snd]. rewrite pw_node_I. cbn [fst snd].
-    destruct (absorb_kids_of fl ks IH f0 f Hle) as [A [B C]]. rewrite A, B. split; [reflexivity|]. split; [reflexivity|].
+    destruct (absorb_kids_of ks IH f0 f Hle) as [A [B C]]. rewrite A, B. split; [reflexivity|]. split; [reflexivity|].
     intros H. apply andb_true_iff in H. destruct H as [H1 H2]. rewrite (C H1), H2. reflexivity.
   - simpl. auto.
 Qed.
@@ -754,15 +754,15 @@ Qed.
 
 Lemma nd_kids_of ks :
   Forall nd_node ks -> all_texts sp_collapse ks = true -> inl_flows ks = true ->
-  forall f, no_double f (flats (fst (pw_kids true f ks))) = true /\
-            snd (pw_kids true f ks) = last_sp f (flats (fst (pw_kids true f ks))).
+  forall f, no_double f (flats (fst (pw_kids f ks))) = true /\
+            snd (pw_kids f ks) = last_sp f (flats (fst (pw_kids f ks))).
 Proof.
   induction 1 as [|k r Hk Hr IH]; intros Ha Hf f; [simpl; auto|].
   simpl in Ha, Hf. apply andb_true_iff in Ha. destruct Ha as [Ha1 Ha2]. apply andb_true_iff in Hf. destruct Hf as [Hf1 Hf2].
   destruct (is_O k) eqn:EO.
   - destruct k; try discriminate. rewrite pw_kids_consO. cbn [fst snd].
     rewrite flats_cons, no_double_app, last_sp_app. destruct flow; simpl; apply IH; assumption.
-  - rewrite (pw_kids_consN true f k r EO). cbn [fst snd].
+  - rewrite (pw_kids_consN f k r EO). cbn [fst snd].
     rewrite (inl_flow_node_flow k Hf1 EO). cbn [andb].
     destruct (Hk EO Ha1 Hf1 f) as [A B]. rewrite flats_cons, no_double_app, last_sp_app. rewrite A, B. cbn [andb].
     apply IH; assumption.
@@ -792,12 +792,12 @@ Proof. apply filter_app. Qed.
 
 Definition nwp_node (n : node) : Prop := forall f, nw (flat (fst (pw_node f n))) = nw (flat n).
 
-Lemma nwp_kids_of pf ks : Forall nwp_node ks -> forall f, nw (flats (fst (pw_kids pf f ks))) = nw (flats ks).
+Lemma nwp_kids_of ks : Forall nwp_node ks -> forall f, nw (flats (fst (pw_kids f ks))) = nw (flats ks).
 Proof.
   induction 1 as [|k r Hk Hr IH]; intros f; [reflexivity|].
   destruct (is_O k) eqn:EO.
   - destruct k; try discriminate. rewrite pw_kids_consO. cbn [fst snd]. rewrite !flats_cons, !nw_app, IH. reflexivity.
-  - rewrite (pw_kids_consN pf f k r EO). cbn [fst snd]. rewrite !flats_cons, !nw_app, IH, Hk. reflexivity.
+  - rewrite (pw_kids_consN f k r EO). cbn [fst snd]. rewrite !flats_cons, !nw_app, IH, Hk. reflexivity.
 Qed.
 
 Lemma nwp_all n : nwp_node n.
@@ -822,30 +822,30 @@ Proof.
 Qed.
 
 (* ... nor on the children of a box (element_to_box calls it once per ancestor until the first non-inline one) *)
-Lemma ws_idempotent pf f ks : pw_kids pf f (fst (pw_kids pf f ks)) = pw_kids pf f ks.
+Lemma ws_idempotent f ks : pw_kids f (fst (pw_kids f ks)) = pw_kids f ks.
 Proof.
   assert (H : Forall absorb_node ks) by (apply Forall_forall; intros; apply absorb_all).
-  destruct (absorb_kids_of pf ks H f f (fun h => h)) as [A [B _]]. apply pair_eq; assumption.
+  destruct (absorb_kids_of ks H f f (fun h => h)) as [A [B _]]. apply pair_eq; assumption.
 Qed.
 
 (* the passes made by the ancestors absorb the element's own first pass (made with the flag unset) *)
-Lemma ws_repass_absorbed pf f ks : pw_kids pf f (fst (pw_kids pf false ks)) = pw_kids pf f ks.
+Lemma ws_repass_absorbed f ks : pw_kids f (fst (pw_kids false ks)) = pw_kids f ks.
 Proof.
   assert (H : Forall absorb_node ks) by (apply Forall_forall; intros; apply absorb_all).
-  destruct (absorb_kids_of pf ks H false f) as [A [B _]]; [intro; discriminate|]. apply pair_eq; assumption.
+  destruct (absorb_kids_of ks H false f) as [A [B _]]; [intro; discriminate|]. apply pair_eq; assumption.
 Qed.
 
 Example ws_idempotent_ex :
   let ks := [T WNormal false (codes [97; 32; 9]); I true false [T WNormal false (codes [32; 10; 98])];
              T WPreLine false (codes [32; 13; 10; 32; 99])] in
-  fst (pw_kids true false ks) =
+  fst (pw_kids false ks) =
   [T WNormal false (codes [97; 32]); I true false [T WNormal true (codes [98])]; T WPreLine false (codes [10; 99])].
 Proof. vm_compute. reflexivity. Qed.
 
 Lemma ws_no_double_space_when_collapsing f ks :
   all_texts sp_collapse ks = true -> inl_flows ks = true ->
-  no_double f (flats (fst (pw_kids true f ks))) = true /\
-  Forall (fun o => match o with Some c => is_ts c = true -> c = SP | None => True end) (flats (fst (pw_kids true f ks))).
+  no_double f (flats (fst (pw_kids f ks))) = true /\
+  Forall (fun o => match o with Some c => is_ts c = true -> c = SP | None => True end) (flats (fst (pw_kids f ks))).
 Proof.
   intros Ha Hf. assert (H : Forall nd_node ks) by (apply Forall_forall; intros; apply nd_all).
   split; [apply (nd_kids_of ks H Ha Hf f)|].
@@ -865,7 +865,7 @@ Proof.
       + destruct k; try discriminate. rewrite pw_kids_consO. cbn [fst]. rewrite flats_cons. apply Forall_app. split.
         * destruct flow; simpl; repeat constructor.
         * apply IHr. exact Ha2.
-      + rewrite (pw_kids_consN fl f k r EO). cbn [fst]. rewrite flats_cons. apply Forall_app. split.
+      + rewrite (pw_kids_consN f k r EO). cbn [fst]. rewrite flats_cons. apply Forall_app. split.
         * apply Hk. exact Ha1.
         * apply IHr. exact Ha2.
     - simpl. destruct fl; repeat constructor. }
@@ -873,7 +873,7 @@ Proof.
   - destruct k; try discriminate. rewrite pw_kids_consO. cbn [fst]. rewrite flats_cons. apply Forall_app. split.
     + destruct flow; simpl; repeat constructor.
     + apply IH; assumption.
-  - rewrite (pw_kids_consN true f k r EO). cbn [fst]. rewrite flats_cons. apply Forall_app. split.
+  - rewrite (pw_kids_consN f k r EO). cbn [fst]. rewrite flats_cons. apply Forall_app. split.
     + apply Hn. exact Ha1.
     + apply IH; assumption.
 Qed.
@@ -882,19 +882,17 @@ Example ws_no_double_space_ex :
   let ks := [T WNormal false (codes [97; 32; 32]); I true false [T WNowrap false (codes [32; 9; 98; 10])];
              T WPreLine false (codes [32; 32; 99])] in
   all_texts sp_collapse ks = true /\ inl_flows ks = true /\
-  flats (fst (pw_kids true false ks)) = map Some (codes [97; 32; 98; 32; 99]).
+  flats (fst (pw_kids false ks)) = map Some (codes [97; 32; 98; 32; 99]).
 Proof. vm_compute. auto. Qed.
 
-(* inside a box that is itself out of flow (float, absolute) the flag is never handed from child to child *)
-Lemma ws_no_double_space_refuted :
-  exists ks, all_texts sp_collapse ks = true /\ inl_flows ks = true /\
-             flats (fst (pw_kids false false ks)) = map Some (codes [97; 32; 32; 98]).
-Proof.
-  exists [T WNormal false (codes [97; 32]); I true false [T WNormal false (codes [32; 98])]].
-  vm_compute. auto.
-Qed.
+(* the loop does not look at the box that holds the children (it may be a float or absolutely positioned: repaired
+   defect F151): "a " + <b>" b"</b> gives "a b" *)
+Example ws_former_refutation_witness :
+  flats (fst (pw_kids false [T WNormal false (codes [97; 32]); I true false [T WNormal false (codes [32; 98])]])) =
+  map Some (codes [97; 32; 98]).
+Proof. vm_compute. reflexivity. Qed.
 
-Lemma ws_preserves_non_space_chars_in_order pf f ks : nw (flats (fst (pw_kids pf f ks))) = nw (flats ks).
+Lemma ws_preserves_non_space_chars_in_order f ks : nw (flats (fst (pw_kids f ks))) = nw (flats ks).
 Proof. apply nwp_kids_of. apply Forall_forall. intros; apply nwp_all. Qed.
 
 Lemma ws_pre_is_identity w f s :
